@@ -151,27 +151,25 @@ structure Secs where
   num : Nat
 deriving Repr
 
-def mkSecs (f : FontIn) (hasEnc : Bool) : Secs :=
-  let a := if hasEnc then 6 else 5
-  let b := if f.ros.isSome then a + 1 else a        -- section of FDSelect = a when CID
+/-- Section numbers.  The Go code leaves out the encoding section (no custom encoding) and the
+FDSelect section (simple font); here they are kept as empty sections, which changes neither
+the bytes nor any offset. -/
+def mkSecs (f : FontIn) : Secs :=
   let np := f.privs.length
-  { enc := if hasEnc then some 5 else none, charsets := a,
-    fdSelect := if f.ros.isSome then some (a + 1) else none,
-    charStrings := b + 1, fontDictIndex := b + 2, priv0 := b + 3, subrs := b + 3 + np, num := b + 4 + np }
+  { enc := some 5, charsets := 6, fdSelect := some 7, charStrings := 8, fontDictIndex := 9, priv0 := 10,
+    subrs := 10 + np, num := 11 + np }
 
 /-- the part of `Write` before the loop; errors of `encodeEncoding`/`encodeCharset` are returned -/
 def prepare (std : List String) (f : FontIn) : Outcome (Fixed × Secs) :=
   let numGlyphs := f.charStrings.length
   -- makeTopDict
   let strOp (op : Nat) (i : Nat) : List (Nat × List Operand) :=
-    match f.strs[i]? with
-    | some s => if s = "" then [] else [(op, [.str s])]
-    | none => []
+    optEntry (decide (f.strs.getD i "" ≠ "")) op [.str (f.strs.getD i "")]
   let top0 := strOp 0 0 ++ strOp 1 1 ++ strOp 3072 2 ++ strOp 2 3 ++ strOp 3 4 ++ strOp 4 5 ++
-    (if f.isFixedPitch then [(3073, [.int 1])] else []) ++
-    (if f.italicAngle.2.1 ≠ 0 then [(3074, [realOperand f.italicAngle])] else []) ++
-    (if f.ulPosDefault then [] else [(3075, [f.ulPos])]) ++
-    (if f.ulThickDefault then [] else [(3076, [f.ulThick])])
+    optEntry f.isFixedPitch 3073 [.int 1] ++
+    optEntry (decide (f.italicAngle.2.1 ≠ 0)) 3074 [realOperand f.italicAngle] ++
+    optEntry (!f.ulPosDefault) 3075 [f.ulPos] ++
+    optEntry (!f.ulThickDefault) 3076 [f.ulThick]
   -- ROS strings are looked up first
   let (top1, custom1) : List (Nat × List Operand) × List String := match f.ros with
     | some (r, o, sup) =>
@@ -211,7 +209,7 @@ def prepare (std : List String) (f : FontIn) : Outcome (Fixed × Secs) :=
              privBase := f.privs.map fun p => makePrivateDict p f.defWidth f.nomWidth,
              fdBase := (List.range f.privs.length).map fun i =>
                fontMatrixEntry (f.fdMatrices.getD i defaultFM) false },
-           mkSecs f encB.isSome)
+           mkSecs f)
 
 /-- one pass of the loop body: all blobs as a function of the current offsets -/
 def mkBlobs (std : List String) (isCID : Bool) (fx : Fixed) (sc : Secs) (offs : List Int) : List Bytes :=
@@ -230,20 +228,17 @@ def mkBlobs (std : List String) (isCID : Bool) (fx : Fixed) (sc : Secs) (offs : 
       -- the loop leaves the descriptor of the last private DICT in the top DICT
       (if fx.privBase.length > 0 then [(18, pdDesc (fx.privBase.length - 1))] else [])) ++
     [(15, [.int (off sc.charsets)])] ++
-    (match sc.enc with
-     | some e => [(16, [.int (off e)])]
+    (match fx.encoding with
+     | some _ => [(16, [.int (off 5)])]
      | none => []) ++
     [(17, [.int (off sc.charStrings)])] ++
-    (match sc.fdSelect with
-     | some s => [(3109, [.int (off s)]), (3108, [.int (off sc.fontDictIndex)])]
+    (match fx.fdSelect with
+     | some _ => [(3109, [.int (off 7)]), (3108, [.int (off sc.fontDictIndex)])]
      | none => [])
   let (topData, custom) := encodeDictS std fx.custom0 top
-  let stringIndex := outOk (indexEncode (custom.map fun s => s.toUTF8.toList))
-  [header, fx.nameIndex, outOk (indexEncode [topData]), stringIndex, [0, 0]] ++
-    (match fx.encoding with | some b => [b] | none => []) ++
-    [fx.charsets] ++
-    (match fx.fdSelect with | some b => [b] | none => []) ++
-    [fx.charStrings, fontDictIndex] ++ privBlobs ++ [[0, 0]]
+  let stringIndex := outOk (indexEncode (custom.map strToBlob))
+  [header, fx.nameIndex, outOk (indexEncode [topData]), stringIndex, [0, 0],
+    fx.encoding.getD [], fx.charsets, fx.fdSelect.getD [], fx.charStrings, fontDictIndex] ++ privBlobs ++ [[0, 0]]
 
 /-- `done`: the first `numSections` entries agree -/
 def sameOffs (n : Nat) (a b : List Int) : Bool := a.take n == b.take n
@@ -260,11 +255,8 @@ def writeLoop (mk : List Int → List Bytes) (n : Nat) : Nat → List Int → Na
 
 /-- initial `blobs`: the sections filled in only inside the loop are empty (`nil`) -/
 def initialBlobs (fx : Fixed) : List Bytes :=
-  [[1, 0, 4, 4], fx.nameIndex, [], [], [0, 0]] ++
-    (match fx.encoding with | some b => [b] | none => []) ++
-    [fx.charsets] ++
-    (match fx.fdSelect with | some b => [b] | none => []) ++
-    [fx.charStrings, []] ++ fx.privBase.map (fun _ => []) ++ [[0, 0]]
+  [[1, 0, 4, 4], fx.nameIndex, [], [], [0, 0], fx.encoding.getD [], fx.charsets, fx.fdSelect.getD [],
+    fx.charStrings, []] ++ fx.privBase.map (fun _ => []) ++ [[0, 0]]
 
 /-- `(*Font).Write` after `encodeCharStrings`: the file, and the number of loop passes -/
 def writeFont (std : List String) (f : FontIn) : Outcome (Bytes × Nat) :=
